@@ -2,8 +2,9 @@
 """adopt_seed.py <ID> <k> <needs> [extra demo files...] : copy a confirmed seeded change from /tmp/seedout/<ID> to /verif/seeded/<ID>-<k>/"""
 import json, os, shutil, sys
 pid, k, needs = sys.argv[1], sys.argv[2], sys.argv[3]
-src = f"/tmp/seedout/{pid}"
-dst = f"/verif/seeded/{pid}-{k}"
+rnd = int(os.environ.get("SEED_ROUND", "1"))     # round 2 becomes <ID>-3, <ID>-4
+src = f"/tmp/seedout{rnd if rnd > 1 else ''}/{pid}"
+dst = f"/verif/seeded/{pid}-{int(k) + 2 * (rnd - 1)}"
 os.makedirs(dst, exist_ok=True)
 shutil.copy(f"{src}/patch{k}.diff", f"{dst}/patch.diff")
 for f in os.listdir(src):
@@ -12,8 +13,8 @@ for f in os.listdir(src):
 if os.path.exists(f"{src}/notes{k}.md"):
     shutil.copy(f"{src}/notes{k}.md", f"{dst}/notes.md")
 meta = {"property": pid, "breaks": pid, "needs_to_manifest": needs,
-        "origin": "independent sub-agent given only the property text and a scratch worktree",
-        "confirmed_by": f"tools/confirm_seed.sh /tmp/seedout/{pid} patch{k}.diff demo{k}.diff seed_demo_{pid.lower()}_{k}: demo passes on the clean tree, fails with the patch, the unedited suite (BASELINE stable_pass) passes with the patch",
+        "origin": "independent sub-agent (round %d) given only the property text and a scratch worktree" % rnd,
+        "confirmed_by": f"tools/confirm_seed.sh {src} patch{k}.diff demo{k}.diff {pid.lower()}{'_r%d' % rnd if rnd > 1 else ''}_demo{k}: demo passes on the clean tree, fails with the patch, the unedited suite (BASELINE stable_pass) passes with the patch",
         "detected_by": [pid]}
 json.dump(meta, open(f"{dst}/meta.json", "w"), indent=1)
 print(dst)
